@@ -31,9 +31,41 @@ RULE = ("every strict prefix (byte granularity) of every valid encoding must be 
         "values with lengths = max are generated with probability 1/8 per position and must be accepted")
 
 
+def bounds_not_dropped(rep, tier, rng):
+    """a declarator written with a bound never gets an unbounded decoder: specifications whose bound cannot be resolved to a number (an
+    unknown name, a constant written in hex or defined through another constant, an enum member, a cycle) must make `generate` return
+    Err — if it answers Ok, the emitted decoder of the crafted field is inspected, and a `None` maximum there is the violation"""
+    import re, t3, specgen
+    t3.build()
+    cases = [c for c in t3.corpus_out_of_subset(600 if tier == "quick" else 6000, rng)
+             if c["tag"] in ("unknown-constant-bound", "hex-constant-as-bound", "enum-member-as-bound", "constant-cycle")]
+    outs = run_lines([t3.FRONT], ["gen d " + t3.hx(c["text"]) for c in cases])
+    n_ok = 0
+    for c, g in zip(cases, outs):
+        if not g.startswith("ok "):
+            continue
+        n_ok += 1
+        text = bytes.fromhex(g[3:]).decode("utf-8", "replace")
+        # the crafted declarators: field `o` / `xs` of the struct, or the typedef named t<i> with a bound
+        crafted = [(it["name"], f["name"]) for it in c["items"] if it["k"] == "struct" for f in it["fields"]
+                   if f["name"] in ("o", "xs") and f.get("arr") and f["arr"][0] == "var" and f["arr"][1] not in ("",) and not f["arr"][1].isdigit()]
+        dropped = [fn for _, fn in crafted if re.search(r"\b%s: v\.read_\w+(::<[^>]*>)?\(None\)" % re.escape(fn), text)]
+        tds = [it["name"] for it in c["items"] if it["k"] == "typedef" and it.get("arr") and it["arr"][0] == "var" and it["arr"][1] and not it["arr"][1].isdigit()]
+        for t in tds:
+            m = re.search(r"for %s(?:<Bytes>)? \{.*?Ok\(Self\(v\.read_\w+(::<[^>]*>)?\((None|Some\(\d+\))\)" % re.escape(t), text, re.S)
+            if m and m.group(2) == "None":
+                dropped.append(t)
+        if dropped:
+            rep.violation({"kind": "declared-bound-dropped", "text": c["text"], "declarators": dropped,
+                           "what": "the specification declares a maximum that does not resolve to a number; generate answered Ok and the emitted decoder passes None (no maximum is enforced)",
+                           "how": "fxfront: `gen d <hex of text>`"})
+    rep.cov["unresolvable_bounds"] = {"texts": len(cases), "generate_ok": n_ok}
+
+
 def check(rep, tier, rng):
     proof_stage(rep, "C05")
     t2props.run_property(rep, "C05", tier, rng, judge, RULE)
+    bounds_not_dropped(rep, tier, rng)
 
 
 def replay(rep, r):
